@@ -43,6 +43,7 @@ RULE = ('suite: the repository\'s own test suite with receiver and '
         'operation/query returns + schedule steps at which open files were '
         're-read; distinct = digests of (operation, input digest) resp. of '
         'the schedule.')
+RULE += (' Queries also run on receivers written to disk and reopened (a file that cannot be read after the query is a violation); interpSigma also with a model top of its own; programs on IOAPI files whose TFLAG was supplied by the caller.')
 ASSUMPTIONS = [
     'getVarlist() with its default update=True is a documented mutator and '
     'is not treated as a query',
